@@ -14,7 +14,7 @@ from . import c19_gen as gen
 
 PROP = "C19"
 SIMDIR = os.path.dirname(os.path.abspath(__file__))
-RUN_TIMEOUT = 20
+RUN_TIMEOUT = 60
 
 CONFIGS_QUICK = [
     {"cxx": "g++", "opt": ["-O0"]}, {"cxx": "g++", "opt": ["-O2"]},
